@@ -177,7 +177,7 @@ def worker(args):
 
 def build_cases(tier, seed):
     cases, seen = [], set()
-    for k, p in enumerate(shapes.sample(shapes.output_program(), 500 if tier == 'quick' else 8000, seed * 3 + 1)):
+    for k, p in enumerate(shapes.sample(shapes.output_program(), 500 if tier == 'quick' else 60000, seed * 3 + 1)):
         t = R.render(p)
         if t not in seen:
             seen.add(t)
